@@ -139,6 +139,31 @@ pub fn check_graph(b: &Built, rec: &Recorder, c: &mut Counters, weighted_modes: 
             graphrs::verif_hooks::set_parallel_override(None);
             cmp("dijkstra::all_pairs", format!("{}|ap-par:w={}", b.case, weighted), rp, &all);
             cmp("dijkstra::multi_source", format!("{}|ms-par:w={}", b.case, weighted), rm, &all);
+            // source LISTS (order and repetition are part of a valid call): every sequence of length <= 3
+            if multi_source_subsets && b.n <= 3 {
+                let mut seqs: Vec<Vec<usize>> = vec![];
+                for a in 0..b.n {
+                    seqs.push(vec![a, a]);
+                    for z in 0..b.n {
+                        if z != a {
+                            seqs.push(vec![z, a]);
+                            seqs.push(vec![a, a, z]);
+                            seqs.push(vec![a, z, a]);
+                            seqs.push(vec![z, a, a]);
+                        }
+                    }
+                }
+                for srcs in seqs {
+                    let distinct: std::collections::BTreeSet<usize> = srcs.iter().cloned().collect();
+                    if distinct.len() == srcs.len() && srcs.windows(2).all(|w| w[0] < w[1]) {
+                        continue; // ascending distinct lists are the subsets below
+                    }
+                    calls += 1;
+                    c.inc("multi_source_lists_with_repeats_or_reordering");
+                    let want: Vec<usize> = distinct.into_iter().collect();
+                    cmp("dijkstra::multi_source", format!("{}|ms:w={}:list={:?}", b.case, weighted, srcs), guarded(|| dijkstra::multi_source(&b.g, weighted, srcs.iter().map(|i| b.names[*i]).collect(), None, None, false, true)), &want);
+                }
+            }
             if multi_source_subsets && b.n <= 4 {
                 for mask in 1..(1usize << b.n) {
                     let srcs: Vec<usize> = (0..b.n).filter(|i| mask >> i & 1 == 1).collect();
